@@ -471,9 +471,9 @@ open Rivaas.Compose in
     to the innermost, then the route's own handlers (before, handler, after); every middleware
     attached to an enclosing scope before the route (or nested scope) was declared is present, in
     attach order; nothing attached to any other group, version group or route occurs.
-    `Mount` (and with it the recorded finding K02b) is outside this theorem: there the clause is
-    checked per generated case by the driver and carried by the witness theorems above. -/
-theorem compose_admitted_partial (script : List Op) (hnm : NoMount script) (hwf : WF script) (i : Nat)
+    This is the mount-free special case (proved first, kept); `compose_admitted_mounts` below is the general
+    theorem, `Mount` included. -/
+theorem compose_admitted_mountfree (script : List Op) (hnm : NoMount script) (hwf : WF script) (i : Nat)
     (ver : Option Nat) (path : Path) (ls : List Level)
     (hl : levels script { mounts := [], route := i } = some (ver, path, ls)) :
     ∃ chain, compose script ver path = some chain ∧ chainOK script { mounts := [], route := i } chain = true := by
@@ -489,7 +489,7 @@ theorem compose_admitted_checked (script : List Op) (hnm : noMountB script = tru
     (i : Nat) (ver : Option Nat) (path : Path) (ls : List Level)
     (hl : levels script { mounts := [], route := i } = some (ver, path, ls)) :
     ∃ chain, compose script ver path = some chain ∧ chainOK script { mounts := [], route := i } chain = true :=
-  compose_admitted_partial script (noMount_of_noMountB script hnm) (wf_of_wfB script hwf) i ver path ls hl
+  compose_admitted_mountfree script (noMount_of_noMountB script hnm) (wf_of_wfB script hwf) i ver path ls hl
 
 open Rivaas.Compose in
 /-- non-vacuity: a script with global `Use` before and after the route, a nested group created
@@ -518,7 +518,7 @@ open Rivaas.Compose in
     (test-pinned), the sub-router's middleware, the `WithMiddleware` extras, then the groups from the outermost to
     the innermost, then the route's own handlers; everything attached to an enclosing scope before the route (or
     the nested scope, or the mount) came into being is present, in attach order; nothing from any scope outside
-    occurs. Generalises `compose_admitted_partial`. -/
+    occurs. Generalises `compose_admitted_mountfree`. -/
 theorem compose_admitted_mounts (script : List Op) (hwf : wfB script = true)
     (tg : Target) (ver : Option Nat) (path : Path) (ls : List Level)
     (hl : levels script tg = some (ver, path, ls)) :
